@@ -98,6 +98,11 @@ func c13Set(r *rand.Rand) Case {
 	if !admissibleWrite(data, path) {
 		path = ""
 	}
+	// a member whose NAME is the whole dotted path, next to the nested location the path addresses: a path is read
+	// component by component, never as one name
+	if strings.Contains(path, ".") && !strings.Contains(path, "[") && r.Intn(4) == 0 {
+		data[path] = []any{map[string]any{"lit": 1, "m": map[string]any{"n": "named with dots"}}, "named with dots"}[r.Intn(2)]
+	}
 	// a payload that mirrors what is already there, some of its members explicitly null (a null carries
 	// no value: under merge the existing member stays)
 	if r.Intn(3) == 0 {
@@ -527,7 +532,65 @@ func escPtr(toks []string) []string {
 	return out
 }
 
+// files larger than a mebibyte: every byte arrives (text, base64) and a long YAML document arrives whole
+func c13BigImport(r *rand.Rand, idx int) Case {
+	size := []int{1 << 20, 1<<20 + 1, 1<<20 + 4096 + r.Intn(5000), 3 << 20}[r.Intn(4)]
+	var fail []string
+	content := make([]byte, size)
+	for i := range content {
+		content[i] = "abcdefgh \n"[(i*7+i/251)%10]
+	}
+	copy(content[size-8:], "THE-END.")
+	file := filepath.Join(c13Dir(), fmt.Sprintf("big%d.bin", idx))
+	defer os.Remove(file)
+	for _, mode := range []string{"text", "binary"} {
+		_ = os.WriteFile(file, content, 0o644)
+		d := anyToContainer(map[string]any{"keep": 1})
+		var err error
+		if pn := guard(func() {
+			err = pipeline.New(pipeline.WithData(d)).Execute(&pipeline.ImportOp{File: file, Path: "big", Mode: pipeline.ParseFileMode(mode)})
+		}); pn != "" || err != nil {
+			fail = append(fail, fmt.Sprintf("import(%s) of a %d-byte file: err=%v panic=%q", mode, size, err, pn))
+			continue
+		}
+		want := string(content)
+		if mode == "binary" {
+			want = base64.StdEncoding.EncodeToString(content)
+		}
+		n := d.Lookup("big")
+		if n == nil || !n.IsLeaf() {
+			fail = append(fail, fmt.Sprintf("import(%s) of a %d-byte file stored no leaf", mode, size))
+		} else if s, _ := n.(dom.Leaf).Value().(string); s != want {
+			fail = append(fail, fmt.Sprintf("import(%s) of a %d-byte file stored %d bytes, expected %d", mode, size, len(s), len(want)))
+		}
+	}
+	// a YAML (and JSON) document of more than a mebibyte: a list of records
+	var sb strings.Builder
+	recs := 0
+	sb.WriteString("hosts:\n")
+	for sb.Len() < size+100 {
+		fmt.Fprintf(&sb, "- {name: host%06d, port: %d, note: \"%s\"}\n", recs, 1000+recs%50000, strings.Repeat("n", 40))
+		recs++
+	}
+	_ = os.WriteFile(file, []byte(sb.String()), 0o644)
+	d := anyToContainer(map[string]any{"keep": 1})
+	var err error
+	if pn := guard(func() {
+		err = pipeline.New(pipeline.WithData(d)).Execute(&pipeline.ImportOp{File: file, Path: "inv", Mode: pipeline.ParseFileModeYaml})
+	}); pn != "" || err != nil {
+		fail = append(fail, fmt.Sprintf("import(yaml) of a %d-byte document: err=%v panic=%q", sb.Len(), err, pn))
+	} else if l := d.Lookup("inv.hosts"); l == nil || !l.IsList() || l.(dom.List).Size() != recs {
+		fail = append(fail, fmt.Sprintf("import(yaml) of a list of %d records (%d bytes) did not store %d items", recs, sb.Len(), recs))
+	} else if last := d.Lookup(fmt.Sprintf("inv.hosts[%d].name", recs-1)); last == nil || !last.IsLeaf() || last.(dom.Leaf).Value() != fmt.Sprintf("host%06d", recs-1) {
+		fail = append(fail, "import(yaml) of a long list: the last record is not the file's last record")
+	}
+	return Case{Kind: "import-big", Desc: map[string]any{"bytes": size, "records": recs}, Fail: fail, Nontrivial: true, Key: fmt.Sprint("big", idx)}
+}
+
 func c13Import(r *rand.Rand, idx int) Case {
+	if idx%200 == 5 {
+		return c13BigImport(r, idx)
+	}
 	o := c13Opts()
 	data := genDoc(r, o)
 	n := []int{0, 1, 2, 3, 10, 40}[r.Intn(6)]
@@ -676,6 +739,9 @@ func c13Export(r *rand.Rand, idx int) Case {
 	if format == "properties" { // only flat string containers survive the k=v syntax
 		p := []string{"flat", "flat.p", "nope", "flat"}[r.Intn(4)]
 		pathp = &p
+	}
+	if pathp != nil && strings.Contains(*pathp, ".") && !strings.Contains(*pathp, "[") && r.Intn(4) == 0 {
+		data[*pathp] = []any{map[string]any{"lit": "1", "m": "named with dots"}, "named with dots"}[r.Intn(2)] // (a member NAMED like the path)
 	}
 	file := filepath.Join(c13Dir(), fmt.Sprintf("exp%d.out", idx))
 	_ = os.Remove(file)
